@@ -15,6 +15,7 @@ classes), so element placement is compared exactly.
 """
 from __future__ import annotations
 
+import copy
 import hashlib
 import inspect
 import warnings
@@ -701,6 +702,52 @@ def members(cls_name):
     return out
 
 
+def call_with_args(cls, obj, name):
+    """read-only operations that need an argument: the operand itself, a symmetry, a simple scalar"""
+    C = _imp()
+    from orix.quaternion import symmetry as S
+    from orix.vector import Vector3d
+    k, _, arg = name.partition(":")
+    if k == "in_fundamental_sector":
+        return obj.in_fundamental_sector(sym_by_name(arg))
+    if k in ("dot", "cross", "angle_with", "outer", "dot_outer", "angle_with_outer", "get_nearest"):
+        other = copy.deepcopy(obj)
+        return getattr(obj, k)(other)
+    if k == "rotate":
+        return obj.rotate(Vector3d.zvector(), 0.3)
+    if k == "mul_vector":
+        return obj * Vector3d(np.array([[0.3, -0.4, 1.2]]))
+    if k == "mul_self":
+        return obj * copy.deepcopy(obj)
+    if k == "to_euler_deg":
+        return obj.to_euler(degrees=True)
+    if k == "to_rodrigues_frank":
+        return obj.to_rodrigues(frank=True)
+    if k == "symmetrise_unique":
+        return obj.symmetrise(unique=True)
+    if k == "unique_sym":
+        return obj.unique(use_symmetry=True)
+    if k == "round":
+        return obj.round(max_index=6)
+    if k == "reduced_zone":
+        return obj.map_into_symmetry_reduced_zone()
+    if k == "get_distance_matrix":
+        return obj.get_distance_matrix()
+    raise KeyError(name)
+
+
+ARG_CALLS = {
+    "Vector3d": ["in_fundamental_sector:C1", "in_fundamental_sector:D3", "in_fundamental_sector:S4", "in_fundamental_sector:Oh",
+                 "in_fundamental_sector:D6h", "dot", "cross", "angle_with", "dot_outer", "rotate", "get_nearest"],
+    "Miller": ["in_fundamental_sector:D3", "in_fundamental_sector:Oh", "dot", "cross", "angle_with", "symmetrise_unique",
+               "unique_sym", "round"],
+    "Quaternion": ["dot", "outer", "dot_outer", "mul_vector", "mul_self", "to_euler_deg", "to_rodrigues_frank"],
+    "Rotation": ["dot", "outer", "dot_outer", "angle_with", "mul_vector", "mul_self", "to_euler_deg", "to_rodrigues_frank"],
+    "Orientation": ["dot", "dot_outer", "angle_with", "angle_with_outer", "mul_vector", "get_distance_matrix"],
+    "Misorientation": ["mul_self", "get_distance_matrix"],
+}
+
+
 def nomut_build(c):
     C = _imp()
     cls = c["cls"]
@@ -747,6 +794,8 @@ def nomut_check(ctx, c, outs):
         try:
             if kind == "property":
                 getattr(obj, name)
+            elif kind == "args":
+                call_with_args(c["cls"], obj, name)
             else:
                 getattr(obj, name)()
         except Exception as e:  # the clause is about the operand, not about the result
@@ -863,7 +912,7 @@ def generate(ctx):
                         r[int(rng.integers(dim))] = 1.0
             meta = rand_meta(rng, cls)
             flags = [bool(rng.integers(2)) for _ in range(n0)] if cls in ROT else []
-            for name, kind in mem:
+            for name, kind in mem + [(nm, "args") for nm in ARG_CALLS.get(cls, [])]:
                 c = {"cls": cls, "shape": shape, "data": data, "flags": flags, "meta": meta, "member": name,
                      "kind": kind}
                 ctx.count(f"nomut/{cls}", ("nomut", cls, name, data, flags, meta))
